@@ -237,13 +237,11 @@ func (t *FSTree) readHeader(id oid.ID, f *os.File, buf []byte) ([]byte, io.ReadS
 				}
 			}
 
-			rsc := io.ReadSeekCloser(f)
-			if buffered := uint32(size - offset); l > buffered {
-				rsc = &limitedFileReader{
-					ReadSeekCloser: f,
-					limit:          int64(l - buffered),
-				}
-			}
+			// Always bound the stream by the member: other objects may follow in the file.
+			rsc := io.ReadSeekCloser(&limitedFileReader{
+				ReadSeekCloser: f,
+				limit:          int64(l - uint32(size-offset)),
+			})
 
 			return buf[offset:size], rsc, nil
 		}
